@@ -1218,12 +1218,13 @@ func c05SpecBad(ctx *Ctx, s *c05Scenario, umask int, prog []c05Action, cur map[s
 // ---------- the check ----------
 
 type c05State struct {
-	ctx   *Ctx
-	res   *Result
-	umask int
-	mu    sync.Mutex
-	cross []c05Cross // cases for the extraction cross-check
-	lcross []string  // link-model requests with the oracle's answers, for the same cross-check
+	ctx    *Ctx
+	res    *Result
+	umask  int
+	mu     sync.Mutex
+	cross  []c05Cross  // cases for the extraction cross-check
+	lcross []c05LCross // link-model cases for the same cross-check
+	elines []string    // ERROR lines of failed saves seen on stderr (for error_line)
 }
 
 func (st *c05State) evals(n, validated int) {
@@ -2065,7 +2066,7 @@ func (st *c05State) scenario(name string, variant int, thorough bool, rng *Rng) 
 		} else {
 			off := rng.Intn(4)
 			jobs = append(jobs, job{k, errnos[(k+off)%4]})
-			if s.Blocked == nil { // the foreign-tmp scenarios repeat a base scenario: one errno per call there
+			if s.Blocked == nil && !s.Links { // the foreign-tmp and link scenarios repeat a base scenario: one errno per call there
 				jobs = append(jobs, job{k, errnos[(k+off+1+rng.Intn(3))%4]})
 			}
 		}
@@ -2131,6 +2132,9 @@ func runC05(ctx *Ctx) *Result {
 			pick = append(pick, st.cross[i])
 		}
 		c05CrossCheckExtraction(ctx, res, st.umask, pick)
+	}
+	if res.Broken == "" {
+		c05LinkCrossCheck(ctx, res, st.umask, st.lcross, st.elines)
 	}
 	dist := 0
 	for k, v := range res.Distribution {
